@@ -6,6 +6,7 @@ CONSTANTS NW = 2
  MaxObj = 2
  MaxL = 5
  MaxQ = 5
+ NKeys = 2
  SCN = "jc"
  NT = 4
  K = 1
